@@ -383,3 +383,118 @@ def models_ext(tier):
         for mid, text in fam(tier):
             out.append((mid, text, osets(mid, tier)))
     return out
+
+
+# ---- ifeq -------------------------------------------------------------------------------------------
+# if-equations whose branches are themselves pattern-matched shapes (eliminable-variable assignment, alias,
+# constant assignment).  After expand_mx (+ expand_vectors) an if-equation is a sum of if_else_zero terms, which
+# eliminable_variable_expression may turn into ONE assignment only when every branch assigns the same variable.
+# A branch is (variable, defining expression, its negation); the eliminable regex is ^(g|k)$ (h, m never match).
+IFEQ_ELIM_RE = "^(g|k)$"
+G1, G2, G3 = ("g", "2 * x + u", "-2 * x - u"), ("g", "3 * x - u", "u - 3 * x"), ("g", "x + 4", "-x - 4")
+K1, K2, K3 = ("k", "x - 2 * u", "2 * u - x"), ("k", "3 * x - u", "u - 3 * x"), ("k", "5 - x", "x - 5")
+H2, GZ = ("h", "3 * x - u", "u - 3 * x"), ("g", "0", "0")
+SUM_GK, K_OF_G, H_DEF = "g + k = 11 + x", "k = g + 1", "h = 2 * x - u"
+# shape -> (blocks (one list of branches per if/elseif/else), further equations)
+IFEQ_SHAPES = {
+    "same2": ([[G1], [G2]], [K_OF_G, H_DEF]),                 # the tested shape: both branches assign g
+    "diff2": ([[G1], [K2]], [SUM_GK, H_DEF]),                 # branches assign different eliminable variables
+    "diff2r": ([[K1], [G2]], [SUM_GK, H_DEF]),                # same, other variable first
+    "mixed2": ([[G1], [H2]], ["g + h = 11 + x", K_OF_G]),     # eliminable variable / non-matching variable
+    "mixed2r": ([[H2], [G1]], ["g + h = 11 + x", K_OF_G]),
+    "zero2": ([[G1], [GZ]], [K_OF_G, H_DEF]),                 # `g = 0` branch (bare-symbol residual)
+    "zerodiff2": ([[G1], [("k", "0", "0")]], [SUM_GK, H_DEF]),
+    "same3": ([[G1], [G2], [G3]], [K_OF_G, H_DEF]),           # elseif chains
+    "diff3": ([[G1], [K2], [G3]], [SUM_GK, H_DEF]),
+    "diff3last": ([[G1], [G2], [K3]], [SUM_GK, H_DEF]),
+    "block2": ([[G1, K1], [G2, K2]], [H_DEF]),                # two equations per branch, rows aligned
+    "block2x": ([[G1, K1], [K2, G2]], [H_DEF]),               # ... rows crossed (row 1: g / k, row 2: k / g)
+    "block2h": ([[G1, H2], [G2, ("h", "x + u", "-x - u")]], [K_OF_G]),
+    # branches that look like aliases / constant assignments (for detect_aliases / eliminate_constant_assignments)
+    "aliasx": ([[("g", "x", "-x")], [("g", "-x", "x")]], [K_OF_G, H_DEF]),
+    "aliash": ([[("g", "h", "-h")], [("g", "-h", "h")]], [K_OF_G, H_DEF]),
+    "aliasdiff": ([[("g", "h", "-h")], [("k", "h", "-h")]], [SUM_GK, H_DEF]),
+    "constif": ([[("g", "3.0", "-3.0")], [("g", "-0.25", "0.25")]], [K_OF_G, H_DEF]),
+    "constdiff": ([[("g", "3.0", "-3.0")], [("k", "3.0", "-3.0")]], [SUM_GK, H_DEF]),
+}
+# condition tag -> (conditions for the if / elseif clauses, value of the Boolean parameter bp)
+IFEQ_CONDS = {
+    "bT": (["bp", "u > p"], "true"), "bF": (["bp", "u > p"], "false"), "notbT": (["not bp", "u > p"], "true"),
+    "u>p": (["u > p", "x < 1"], "true"), "x<1": (["x < 1", "bp"], "true"), "x<1F": (["x < 1", "bp"], "false"),
+    "and": (["bp and u > p", "x < 1"], "true"), "u<=p": (["u <= p", "bp"], "false"),
+}
+IFEQ_FORMS = [("V=E", "V=E", "V=E"), ("E=V", "V=E", "E=V"), ("V=E", "E=V", "E=V"), ("V-E=0", "0=E-V", "V-E=0"),
+              ("V+N=0", "N=-V", "0=V+N"), ("0=V-E", "E-V=0", "-V=N")]
+
+
+def ifeq_model(shape, cond, forms):
+    blocks, extra = IFEQ_SHAPES[shape]
+    conds, bval = IFEQ_CONDS[cond]
+    fm = dict(ORIENT_FORMS)
+    lines = []
+    for bi, block in enumerate(blocks):
+        if bi == 0:
+            lines.append(f"  if {conds[0]} then")
+        elif bi < len(blocks) - 1:
+            lines.append(f"  elseif {conds[bi]} then")
+        else:
+            lines.append("  else")
+        for V, E, N in block:
+            lines.append("    " + _fill(fm[forms[bi]], V, E, N) + ";")
+    lines.append("  end if;")
+    return (f"model S\n  parameter Boolean bp = {bval};\n  parameter Real p = 2;\n  input Real u;\n  Real x(start = 1);\n"
+            "  Real g, k, h, y;\nequation\n  der(x) = -p * x + y;\n" + "\n".join(lines) + "\n" +
+            "".join(f"  {e};\n" for e in extra) + "  y = g - 2 * k + h + x;\nend S;\n")
+
+
+def ifeq_models(tier):
+    out = []
+    quick = tier == "quick"
+    for shape, (blocks, _) in IFEQ_SHAPES.items():
+        core = shape in ("same2", "diff2", "diff2r", "mixed2")
+        conds = ["bT", "bF", "u>p"] if quick else list(IFEQ_CONDS)
+        if quick and core:
+            conds += ["x<1"]
+        for cond in conds:
+            if quick:
+                forms = IFEQ_FORMS[:3] if core and cond in ("bT", "u>p") else IFEQ_FORMS[:1]
+            else:
+                forms = IFEQ_FORMS if core or cond in ("bT", "u>p") else IFEQ_FORMS[:2]
+            for fr in forms:
+                out.append((f"ifeq:{shape}:{cond}:{'/'.join(fr[:len(blocks)])}", ifeq_model(shape, cond, fr)))
+    return out
+
+
+def ifeq_option_sets(mid, tier):
+    eve = {"eliminable_variable_expression": IFEQ_ELIM_RE, "expand_mx": True}
+    base = dict(eve, expand_vectors=True)
+    eca, rcv, da = {"eliminate_constant_assignments": True}, {"replace_constant_values": True}, {"detect_aliases": True}
+    allsix = dict(base, **{k: True for k in SIX if k != "eliminable_variable_expression"})
+    shape, cond, forms = mid.split(":")[1:4]
+    first = forms.split("/")[0] == "V=E" and forms.split("/")[1] == "V=E"
+    out = [base, dict(base, **da), eve]
+    if first or tier != "quick":
+        out += [dict(base, **eca, **rcv), allsix]
+        if cond in ("bT", "bF", "notbT", "x<1F", "and", "u<=p"):
+            out.append(dict(base, replace_parameter_values=True))
+        if shape.startswith("alias"):
+            out += [da, dict(da, expand_mx=True, expand_vectors=True)]
+        if shape.startswith("const"):
+            out += [eca, dict(eca, **rcv, expand_mx=True, expand_vectors=True)]
+    if tier != "quick":
+        out += [dict(base, replace_parameter_expressions=True), dict(base, factor_and_simplify_equations=True),
+                dict(base, iterative_simplification=True, **da), {k: v for k, v in allsix.items() if k != "expand_vectors"},
+                dict(da, **eca, **rcv), {"expand_mx": True, "expand_vectors": True}, {"expand_vectors": True},
+                dict(base, resolve_parameter_values=True)]
+    seen, uniq = set(), []
+    for o in out:
+        key = tuple(sorted(o.items()))
+        if key not in seen:
+            seen.add(key)
+            uniq.append(o)
+    return uniq
+
+
+def models_ext2(tier):
+    """Second-round extended classes, used by C14 only (models_ext() is shared with the C15 harness and stays as it is)."""
+    return [(mid, text, ifeq_option_sets(mid, tier)) for mid, text in ifeq_models(tier)]
